@@ -67,6 +67,30 @@ class Spec:
     raising_tests: dict[str, tuple[str, str]] = field(default_factory=dict)
     tuple_as_list: bool = False  # Python tuples used as immutable sequences become Lean lists
     add_is_append: bool = False  # `a + b` on such sequences is `a ++ b`
+    # expression statements that update a local in place, by exact source text: text -> (local name, Lean expression for its new value)
+    stmt_rewrites: dict[str, tuple[str, str]] = field(default_factory=dict)
+
+
+def apply_stmt_rewrites(fn: ast.FunctionDef, spec: "Spec") -> ast.FunctionDef:
+    """Replace the expression statements named in `spec.stmt_rewrites` by assignments to the local they update."""
+    if not spec.stmt_rewrites:
+        return fn
+    counter = [0]
+
+    class R(ast.NodeTransformer):
+        def visit_Expr(self, node: ast.Expr):
+            t = ast.unparse(node.value)
+            if t in spec.stmt_rewrites:
+                name, lean = spec.stmt_rewrites[t]
+                counter[0] += 1
+                ph = f"__rewritten_{counter[0]}"
+                spec.subst[ph] = lean
+                return ast.copy_location(ast.Assign(targets=[ast.Name(id=name, ctx=ast.Store())], value=ast.Name(id=ph, ctx=ast.Load()), lineno=node.lineno), node)
+            return node
+
+    import copy
+
+    return ast.fix_missing_locations(R().visit(copy.deepcopy(fn)))
 
 
 def find_function(tree: ast.Module, qualname: str) -> ast.FunctionDef:
@@ -541,7 +565,22 @@ class StateTr(Tr):
                 raise Untranslatable(f"{self.s.qualname}: break outside a loop")
             return f"({', '.join(self.state)}, true)"
         if isinstance(st, ast.Assign) and len(st.targets) == 1 and isinstance(st.targets[0], ast.Name):
-            return f"let {self.e_Name(st.targets[0])} := {self.e(st.value)}\n{ind}{self.stm(rest, depth, in_loop)}"
+            val = self.e(st.value)
+            self.defined.add(st.targets[0].id)
+            return f"let {self.e_Name(st.targets[0])} := {val}\n{ind}{self.stm(rest, depth, in_loop)}"
+        if isinstance(st, ast.For) and isinstance(st.target, ast.Name) and not st.orelse and not in_loop and self._local_only(st):
+            # a loop that only updates locals (no effect on the object state, no break): a fold over the loop-carried locals
+            carried = [v for v in self.assigned_names(list(st.body)) if v in self.defined]
+            if not carried:
+                raise Untranslatable(f"{self.s.qualname}: for-loop without loop-carried variable")
+            names = [self.s.rename.get(v, v) for v in carried]
+            state = names[0] if len(names) == 1 else "(" + ", ".join(names) + ")"
+            saved = set(self.defined)
+            self.defined.add(st.target.id)
+            body = self.block(list(st.body), depth + 2, tail=state)
+            self.defined = saved
+            return (f"let {state} := ({self.e(st.iter)}).foldl (fun {state} {st.target.id} =>\n{ind}    {body}) {state}\n"
+                    f"{ind}{self.stm(rest, depth, in_loop)}")
         if isinstance(st, ast.Raise):
             t = ast.unparse(st)
             if t in self.s.subst:
@@ -561,6 +600,14 @@ class StateTr(Tr):
                     f"{ind}    let ({sv}, stopped) := acc\n{ind}    if stopped then ({sv}, stopped) else\n{ind}    {body}) ({sv}, false))\n"
                     f"{ind}{self.stm(rest, depth, in_loop)}")
         raise Untranslatable(f"{self.s.qualname}: statement {ast.unparse(st).splitlines()[0]!r}")
+
+    def _local_only(self, loop: ast.For) -> bool:
+        for n in ast.walk(loop):
+            if isinstance(n, (ast.Break, ast.Continue, ast.Return)):
+                return False
+            if isinstance(n, ast.Expr) and isinstance(n.value, ast.Call) and ast.unparse(n.value.func) in self.effects:
+                return False
+        return True
 
     @staticmethod
     def _proj(n: int) -> str:
@@ -590,7 +637,7 @@ def translate_file(src_path: str, specs: list[Spec], namespace: str, header: str
         "",
     ]
     for sp in specs:
-        fn = find_function(tree, sp.qualname)
+        fn = apply_stmt_rewrites(find_function(tree, sp.qualname), sp)
         out.append(f"-- {sp.qualname}  (lines {fn.lineno}-{fn.end_lineno})  variants={sp.variants}")
         out.append((tr_cls(sp) if tr_cls else Tr(sp)).function(fn))
     out.append(f"end {namespace}")
